@@ -280,6 +280,64 @@ func c19DecisionTable(c *h.Ctx, part, parts int) {
 }
 
 // c19Real: a silent player runner sits at a real table; the others are driven by the harness.
+// c19OpenedThenPlaying: a table-level event right after the open delivers the hand's first state on a snapshot whose
+// status is still "opened"; the playing snapshot that follows carries the same state. The runner must still act on
+// the request (once, after the thinking time).
+func c19OpenedThenPlaying(c *h.Ctx) {
+	for _, status := range c19Status {
+		for _, ev := range []struct {
+			event   string
+			allowed []string
+			pos     []string
+			want    string
+		}{{"ReadyRequested", []string{"ready"}, []string{"dealer"}, "ready"}, {"BlindsRequested", []string{"pay"}, []string{"bb"}, "pay"}, {"RoundStarted", []string{"fold", "call", "allin"}, []string{"dealer"}, "fold"}} {
+			pr := actor.NewPlayerRunner("me")
+			sp := &spyAdapter{noForward: true, name: "me", idx: 0}
+			a := actor.NewActor()
+			a.SetAdapter(sp)
+			a.SetRunner(pr)
+			switch status {
+			case "idle":
+				pr.Idle()
+			case "suspended":
+				pr.Suspend()
+			}
+			mk := func(st pt.TableStateStatus) *pt.Table {
+				t := c19Table(ev.allowed, ev.event, ev.pos, 1, 5000)
+				t.State.Status = st
+				return t
+			}
+			t1 := mk(pt.TableStateStatus_TableGameOpened)
+			sp.gs = t1.State.GameState
+			a.UpdateTableState(t1)
+			time.Sleep(time.Duration(c.R.Intn(3000)) * time.Microsecond)
+			if n := len(sp.snapshotCalls()); n != 0 {
+				c.Violate("C19/acted-on-a-snapshot-that-is-not-playing", fmt.Sprintf("%s runner submitted %v on a snapshot with status opened", status, sp.snapshotCalls()), nil)
+				return
+			}
+			t2 := mk(pt.TableStateStatus_TableGamePlaying)
+			sp.gs = t2.State.GameState
+			t0 := h.Mono()
+			a.UpdateTableState(t2)
+			time.Sleep(1500 * time.Millisecond)
+			calls := sp.snapshotCalls()
+			if len(calls) != 1 || calls[0].Act != ev.want {
+				c.Violate("C19/no-automatic-action/state-first-seen-on-an-opened-snapshot", fmt.Sprintf("%s runner, %s allowed %v: the state was first delivered on a snapshot with status opened, then on the playing snapshot; 1.5 s after that the runner has submitted %v (expected one %s)", status, ev.event, ev.allowed, calls, ev.want), nil)
+				return
+			}
+			if status != "suspended" && time.Duration(calls[0].Mono-t0) < time.Second-3*time.Millisecond {
+				c.Violate("C19/acted-before-thinking-time-elapsed", fmt.Sprintf("%s runner: %s after %v (action time 1 s)", status, calls[0].Act, time.Duration(calls[0].Mono-t0)), nil)
+				return
+			}
+			c.Count("opened_then_playing_sequences", 1)
+		}
+	}
+	c.Feature("state-first-seen-on-an-opened-snapshot")
+	c.Nontrivial()
+	c.FP("opened-then-playing", c.Seed)
+	c.Sample(map[string]interface{}{"kind": "hand state delivered on an opened snapshot first, then on the playing one"})
+}
+
 func c19Real(c *h.Ctx) {
 	r := c.R
 	cfg := h.GenTable(r, h.GenOpts{MinSeats: 2, MaxSeats: 6, MinPlayers: 2, Modes: []string{"ct", "cash"}, ActionTime: 1})
@@ -325,8 +383,21 @@ func c19Real(c *h.Ctx) {
 		pr.Suspend()
 	}
 	sp = &spyAdapter{inner: actor.NewTableEngineAdapter(s.TE, s.TE.GetTable()), name: me, copyFirst: true}
+	var dlog []string // every view delivered to the silent player's actor (for the witness)
 	sp.onUpdate = func(sp *spyAdapter, t *pt.Table, n int64) {
 		gs := t.State.GameState
+		{
+			line := fmt.Sprintf("#%d mono=%d status=%s", n, h.Mono(), t.State.Status)
+			if gs != nil {
+				line += fmt.Sprintf(" game=%s updated_at=%d event=%s", gs.GameID[:6], gs.UpdatedAt, gs.Status.CurrentEvent)
+				if gp := t.GamePlayerIndex(me); gp >= 0 && gp < len(gs.Players) {
+					line += fmt.Sprintf(" allowed=%v", gs.Players[gp].AllowedActions)
+				}
+			}
+			mu.Lock()
+			dlog = append(dlog, line)
+			mu.Unlock()
+		}
 		if gs == nil || t.State.Status != pt.TableStateStatus_TableGamePlaying {
 			return
 		}
@@ -413,7 +484,10 @@ func c19Real(c *h.Ctx) {
 	hd := s.PlayHand(script)
 	time.Sleep(5 * time.Millisecond)
 	calls := sp.snapshotCalls()
-	w := map[string]interface{}{"cfg": cfg, "silent_player": me, "status": status, "runner_calls": calls, "trace": s.TraceTail(40)}
+	mu.Lock()
+	dl := append([]string{}, dlog...)
+	mu.Unlock()
+	w := map[string]interface{}{"cfg": cfg, "silent_player": me, "status": status, "runner_calls": calls, "deliveries": dl, "trace": s.TraceTail(40)}
 	// real views: amounts differ from the synthetic constants, so judge with the view's own numbers
 	mu.Lock()
 	reqs := append([]pend{}, pending...)
@@ -529,7 +603,7 @@ func init() {
 			return map[string]int{"quick": 100, "thorough": 1700}[tier]
 		},
 		RequiredFeatures: func(string) []string {
-			return []string{"decision-table-part-0/8", "decision-table-part-7/8", "real-table:running", "real-table:idle", "real-table:suspended", "real:ready", "real:fold", "real:check", "real:pay", "real:level-raised-mid-hand", "real:table-level-event-during-thinking-time"}
+			return []string{"decision-table-part-0/8", "decision-table-part-7/8", "real-table:running", "real-table:idle", "real-table:suspended", "real:ready", "real:fold", "real:check", "real:pay", "real:level-raised-mid-hand", "real:table-level-event-during-thinking-time", "state-first-seen-on-an-opened-snapshot"}
 		},
 		Post: func(tier string, rs []*h.CaseResult) map[string]interface{} {
 			var n int64
@@ -548,6 +622,10 @@ func init() {
 		Run: func(c *h.Ctx) {
 			if c.Case < 8 {
 				c19DecisionTable(c, c.Case, 8)
+				return
+			}
+			if c.Case%32 == 9 {
+				c19OpenedThenPlaying(c)
 				return
 			}
 			c19Real(c)
